@@ -140,8 +140,17 @@ func runProperty(pc *PropConfig, overlay map[string][]byte, timeoutS int, wantMo
 	// budget, nothing else running. A machine under load must not turn a slow proof into an alarm; an obligation that
 	// is really false stays undecided or sat either way. Must-fail canaries (child processes) skip this.
 	if os.Getenv("GOVC_CANARY_CHILD") == "" {
+		openFinding := map[string]bool{}
+		for _, kf := range readKnown() {
+			if kf.Status == "open" {
+				openFinding[kf.Obligation] = true
+			}
+		}
 		var slow []*Obligation
 		for _, ob := range rest {
+			if openFinding[ob.Name] {
+				continue // a recorded finding: known to fail, no point in a second attempt
+			}
 			if ob.Status == "timeout" || ob.Status == "unknown" || ob.Status == "error" {
 				slow = append(slow, ob)
 			}
@@ -160,6 +169,23 @@ func runProperty(pc *PropConfig, overlay map[string][]byte, timeoutS int, wantMo
 				eng.replayScalar(ob)
 				done++
 			}
+		}
+	}
+	// a function whose sampled returning paths were all infeasible gets more of its returning paths probed before it is
+	// called vacuous (the first sample may have hit only branches that cannot be taken, e.g. a recover() that is nil)
+	for _, r := range rr.Funcs {
+		n, unsat := 0, 0
+		for _, ob := range r.Obls {
+			if ob.Kind == "cover" && strings.HasSuffix(ob.Name, "#cover:return") {
+				n++
+				if ob.Status == "unsat" {
+					unsat++
+				}
+			}
+		}
+		if n > 0 && n == unsat && len(r.ExtraCovers) > 0 {
+			solveAll(r.ExtraCovers, 2, 8, false)
+			r.Obls = append(r.Obls, r.ExtraCovers...)
 		}
 	}
 	for _, r := range rr.Funcs {
